@@ -331,6 +331,9 @@ def synthetic(rng):
     spec["with_tip"] = bool(rng.random() < .67)
     # approach and retract of different length (e.g. 700 + 300 points)
     spec["n_ret"] = int(spec["n"] * float(rng.choice([1, 1, .4, 1.8])))
+    if rng.random() < .2:
+        # the lowest tip position is not the last sample of the approach
+        spec["law"] = "overshoot"
     idnt, truth = fitlab.build_curve(spec)
     spike = bool(rng.random() < .3)
     if spike:
@@ -416,8 +419,17 @@ def one_case(rec, rng, cid):
     # held at a value far off, narrow absolute interval, other abscissa: the
     # fitted contact point moves towards either end of the approach, the
     # indentation or baseline part shrinks to a few samples
-    for _ in range(2):
+    xa = np.asarray(idnt["tip position"])[np.asarray(idnt["segment"]) == 0] \
+        if "tip position" in idnt else np.zeros(1)
+    turned = bool(xa.size > 3 and int(np.argmin(xa)) < xa.size - 1)
+    for io in range(3 if turned else 2):
         odd = fitlab.draw_odd_fit(rng)
+        if io == 2:
+            # the approach turns round before its last sample: contact point
+            # held among the deepest samples
+            odd = dict(odd, kind="cp-fixed-deep-end", u=.5 * odd["u"])
+            rec.event("deep-end fits on approach parts that turn round "
+                      "before their last sample")
         try:
             fitlab.odd_fit(idnt, mk, odd)
         except BaseException as e:  # noqa
